@@ -747,16 +747,15 @@ func countKnown(m map[string]*violationRec) int {
 // minimise shrinks a failing plan while the same violation class and site
 // persist. Every candidate runs in a child process.
 func minimise(p Property, plan *Plan, res *Result) (*Plan, *Result, int) {
-	var c *child
-	defer func() { c.close() }()
+	// Every candidate runs in a FRESH child: the library has process-global
+	// state, and a candidate must not "reproduce" thanks to what an earlier
+	// candidate left behind in the same process.
 	run := func(q *Plan) *Result {
-		if c == nil || c.dead {
-			var err error
-			c, err = startChild(p, childOpts{})
-			if err != nil {
-				return &Result{Verdict: "infra"}
-			}
+		c, err := startChild(p, childOpts{})
+		if err != nil {
+			return &Result{Verdict: "infra"}
 		}
+		defer func() { c.close() }()
 		return c.exec(q)
 	}
 	// First make sure the starting plan reproduces (it may be the narrowed one).
